@@ -1024,6 +1024,16 @@ func ruleC01Match(p *Prog, r *Result) {
 		}
 		return false, "a list pattern is accepted before all of its entries were looked for"
 	})
+	// $invert is looked at before any verdict: a "false" for a value that is not a map (or an early "true")
+	// returned before the pattern's $invert has been examined is not negated (seed C01-k)
+	pr.all("map pattern: $invert is examined before any verdict", selectPaths(mapPat, func(pa *Path) bool {
+		return pa.End == "return" && len(pa.Results) == 1 && (pa.Results[0].IsConst("true") || pa.Results[0].IsConst("false"))
+	}), "every constant verdict is returned on a path that has decided whether $invert: true is present", func(pa *Path) (bool, string) {
+		if isInvert(pa) != 0 {
+			return true, ""
+		}
+		return false, "a verdict is returned before the pattern's $invert was looked at: with $invert: true it is not negated"
+	})
 	pr.all("map pattern: no match only when an entry fails (or the value is an unevaluated reference)", selectPaths(plainMap, func(pa *Path) bool {
 		return guardPol(pa, "kind", objP, "map") == 1 && retBool(pa, "false")
 	}), "false is returned only after match(obj[k], v) failed for a pattern entry, or by the placeholder rule", func(pa *Path) (bool, string) {
